@@ -822,7 +822,10 @@ def run_pty_case(c):
     try:
         with Heartbeat() as hb:
             conn.transport.open()
-            conn.channel.get_prompt()
+            # NOT get_prompt(): its return makes the fake device print a second prompt that, under load, can arrive after
+            # the echo of the command below and be taken for the command's prompt.  Wait for the banner and consume it.
+            time.sleep(0.3)
+            conn.channel.read()
             t0 = time.monotonic()
             try:
                 conn.channel.send_input(c.get("cmd", "go silent"))
@@ -1540,21 +1543,23 @@ def run(tier, seed):
     slowc = slow_cases(tier)
     slow_res = run_workers(slowc, nproc, per_case_timeout=30)
     # pre-filter prog cases for robustness against ties (model under +/- 0.5 tick on a 10x finer scale)
-    def fine(p, delta, depth=0):
-        """10x finer time scale; every read longer/shorter by delta, every inner timeout shifted by 3 per nesting level"""
+    def fine(p, delta, tdelta=0, depth=0):
+        """10x finer time scale; every read longer/shorter by delta; every armed timeout shifted by tdelta * 3 * (depth + 1).
+        Reads and timeouts are perturbed SEPARATELY (moving both together can flip a decision and flip it back)."""
         k = p[0]
         if k in ("ret", "raise", "hang"):
             return p
         if k == "work":
-            return ["work", max(p[1] * 10 + delta, 0), fine(p[2], delta, depth)]
+            return ["work", max(p[1] * 10 + delta, 0), fine(p[2], delta, tdelta, depth)]
         if k == "spawn":
-            return ["spawn", fine(p[1], delta, depth + 1), fine(p[2], delta, depth)]
-        t = p[1] * 10 + (3 * depth * (1 if delta > 0 else -1 if delta < 0 else 0) if p[1] else 0)
-        return ["call", t, p[2], fine(p[3], delta, depth + 1), fine(p[4], delta, depth)]
+            return ["spawn", fine(p[1], delta, tdelta, depth + 1), fine(p[2], delta, tdelta, depth)]
+        t = p[1] * 10 + (tdelta * 3 * (depth + 1) if p[1] else 0)
+        return ["call", t, p[2], fine(p[3], delta, tdelta, depth + 1), fine(p[4], delta, tdelta, depth)]
+    VARIANTS = ((0, 0), (-5, 0), (5, 0), (0, -1), (0, 1))
     lines = []
     for c in pcases:
-        for delta in (0, -5, 5):
-            cc = dict(c, prog=fine(c["prog"], delta), release=RELEASE * 10, pre_timer=(c["pre_timer"] * 10 if c.get("pre_timer") else None))
+        for delta, tdelta in VARIANTS:
+            cc = dict(c, prog=fine(c["prog"], delta, tdelta), release=RELEASE * 10, pre_timer=(c["pre_timer"] * 10 if c.get("pre_timer") else None))
             lines.append(model_line(cc))
     try:
         mo = run_model("C07", lines) if lines else []
@@ -1563,13 +1568,16 @@ def run(tier, seed):
         return ck.finish()
     keep, ties = [], 0
     for i, c in enumerate(pcases):
-        z, a, b = parse_model(mo[3 * i]), parse_model(mo[3 * i + 1]), parse_model(mo[3 * i + 2])
+        nv = len(VARIANTS)
+        z, a, b, ta, tb = (parse_model(mo[nv * i + j]) for j in range(nv))
         key = lambda x: (x["out"], x["msg"], x["closed"], len(x["acts"]), pending(x), x["timer"] is None)  # noqa
         nw = sum(1 for x in prog_tokens(c["prog"]) if x == "work") + 1
         # no decision (done / not done, which deadline first) may flip within +-50 ms: then the end time responds
         # linearly to the perturbation
-        if key(z) == key(a) == key(b) and None not in (z["fin"], a["fin"], b["fin"]) \
-                and b["fin"] - z["fin"] == z["fin"] - a["fin"] and abs(b["fin"] - z["fin"]) <= 5 * nw + 9:
+        ncalls = sum(1 for x in prog_tokens(c["prog"]) if x == "call")
+        if key(z) == key(a) == key(b) == key(ta) == key(tb) and None not in (z["fin"], a["fin"], b["fin"], ta["fin"], tb["fin"]) \
+                and b["fin"] - z["fin"] == z["fin"] - a["fin"] and abs(b["fin"] - z["fin"]) <= 5 * nw \
+                and tb["fin"] - z["fin"] == z["fin"] - ta["fin"] and abs(tb["fin"] - z["fin"]) <= 12 * ncalls:
             keep.append(c)
         elif c.get("note"):
             keep.append(c)      # corpus cases are curated
